@@ -438,6 +438,21 @@ func corpus(c *vf.Ctx) (units []unit, perPkg map[string]map[string]int) {
 		units = append(units, unit{kind: kindBinary, entry: "types.V2BlockData", pkg: "types", base: bd, label: fmt.Sprintf("block data with an embedded %d-hash element proof", L)})
 		bump("types", "structured_attack_inputs", 2)
 	}
+	// structured attack: the same nesting in the TEXT form of a policy (ParseSpendPolicy / the JSON string form)
+	for _, d := range []int{33, 34, 255, 4096, 300_000} {
+		var sb strings.Builder
+		for i := 0; i < d; i++ {
+			sb.WriteString("thresh(1,[")
+		}
+		sb.WriteString("above(0)")
+		for i := 0; i < d; i++ {
+			sb.WriteString("])")
+		}
+		txt := sb.String()
+		units = append(units, unit{kind: kindText, entry: "types.ParseSpendPolicy", pkg: "text", base: []byte(txt), label: fmt.Sprintf("policy text nested %d deep", d), only: true})
+		units = append(units, unit{kind: kindText, entry: "types.SpendPolicy (json.Unmarshal)", pkg: "text", base: []byte(`"` + txt + `"`), label: fmt.Sprintf("policy JSON string nested %d deep", d), only: true})
+		bump("text", "structured_attack_inputs", 2)
+	}
 	c.Set("structured_attacks", map[string]any{"policy_nesting_depths": depths, "worker_max_stack_bytes": workerMaxStack, "multiproof_embedded_proof_lengths": embedded})
 	maxTexts := vf.Pick(c, 4, 16)
 	maxTextLen := vf.Pick(c, 1500, 8000)
